@@ -45,3 +45,14 @@ func (h *Handler) VerifResolver() *Resolver { return h.resolver }
 func (h *Handler) VerifSeedDNS(name string, ip net.IP) {
 	h.resolver.setCache(name, ip, time.Hour)
 }
+
+// VerifSessionKey returns the raw session key of a tracked connection.
+func (h *Handler) VerifSessionKey(streamID uint64) ([32]byte, bool) {
+	h.mu.RLock()
+	defer h.mu.RUnlock()
+	ac := h.connections[streamID]
+	if ac == nil || ac.sessionKey == nil {
+		return [32]byte{}, false
+	}
+	return ac.sessionKey.Key(), true
+}
